@@ -11,6 +11,7 @@ import (
 // pkg is one parsed Go package together with the translation state.
 type pkg struct {
 	cfg    *config
+	dir    string // package directory (globals.go scans all of its files)
 	fset   *token.FileSet
 	files  []*ast.File
 	funcs  map[string]*ast.FuncDecl // "name" or "Element.name"
@@ -64,7 +65,7 @@ func funcKey(fd *ast.FuncDecl) string {
 
 func loadPkg(dir string, cfg *config) *pkg {
 	p := &pkg{
-		cfg: cfg, fset: token.NewFileSet(),
+		cfg: cfg, dir: dir, fset: token.NewFileSet(),
 		funcs: map[string]*ast.FuncDecl{}, globals: map[string][]string{},
 		done: map[string]*summary{}, inprog: map[string]bool{},
 		coqUsed: map[string]string{}, mem: map[string]*msummary{},
